@@ -43,7 +43,8 @@ CLAIMED["C02"] = dict(
          "_fake_finish_with_state, the finish() handshake of ComponentState (the final-state setter is subscribed to "
          "notifyPostMortem before any POSTMORTEM trigger; every path sets or subscribes the requested state), verdict "
          "computation in Controller.run, precedence in StageState.state, decisions by universal rules and launches only with "
-         "all producers observed, and the "
+         "all producers observed, the finishCalled veto of every postMortemCheck subscription evaluated at delivery "
+         "(after the last scheduler-hopping rx operator), and the "
          "shutdown-propagation table. Decides the obligations without which some ordering leaves a component pending "
          "or in a rule-violating state; does not explore interleavings.",
     technique="statement CFG with handler/finally modelling: must-pass-through, per-path call counting, branch-table "
@@ -94,7 +95,8 @@ CLAIMED["C05"] = dict(
          "format, loop-carried inputs rewritten to i-1 only for i>0 and not for loopref/loopoutput, no stage-offset drift "
          "in stored loop bindings, deep copy + persistence in next-iteration, anchored rewriting, loop state from the "
          "numeric maximum, aggregate references ordered numerically by producer or consumer, and the placeholder's "
-         "instance list modified only inside graph.py (flow-sensitive alias analysis of its readers). Holds for every iteration count because it constrains the comparison, not sampled counts.",
+         "instance list modified only inside graph.py (flow-sensitive alias analysis of its readers) and selected by the "
+         "placeholder's stage and name (component-wise dependence analysis with helper inlining). Holds for every iteration count because it constrains the comparison, not sampled counts.",
     technique="sibling cross-check lint over sort keys, format/parser agreement, CFG edge-dominance, SUB, "
               "reaching-definition alias analysis (who-may-write)",
     design="3/C05")
@@ -104,8 +106,10 @@ CLAIMED["C10"] = dict(
          "matter), the replacement is the value resolved from the same reference, the argument string is rewritten "
          "nowhere else, the stage-less relative spelling is used only on the side where the reference's absolute "
          "spelling was not found, values are inserted verbatim (callable), and inserted text is never rescanned (one pass "
-         "outside the loop over the references). The four str.replace sites that violated it were a genuine, reproduced defect and were repaired.",
-    technique="substitution-site lint with pattern-shape analysis (SUB), local def-use of replacement values, CFG edge-dominance",
+         "outside the loop over the references); DataReference.resolve and resolveArguments keep no state between calls and the "
+         ":output value returned is, on every path, read from the file in that call. The four str.replace sites that violated it were a genuine, reproduced defect and were repaired.",
+    technique="substitution-site lint with pattern-shape analysis (SUB), local def-use of replacement values, CFG edge-dominance, "
+              "non-local effect analysis (STATE), reaching definitions",
     design="3/C10")
 CLAIMED["C19"] = dict(
     text="Literal-table agreement between the DOSINI writers and parse_component for every option at once: written key "
